@@ -18,6 +18,14 @@ func DirkBin() string {
 	return "/verif/.bin/dirk"
 }
 
+// RaceDirkBin is the daemon built with the race detector.
+func RaceDirkBin() string {
+	if v := os.Getenv("DIRK_RACE_BIN"); v != "" {
+		return v
+	}
+	return "/verif/.bin/dirk-race"
+}
+
 // NewBaseDir creates a minimal base directory for CLI commands (storage in <dir>/storage).
 func NewBaseDir(dir string) error {
 	if err := os.MkdirAll(dir, 0o755); err != nil {
